@@ -619,8 +619,8 @@ def t_generators(rec, seed, tier):
                 c["words"] = draw(st.sampled_from([["a", "b"], ["alpha", "beta", "gamma", "delta", "eps"], ["x y", "z"]]))
             c["sep"] = draw(st.sampled_from([None, " ", "-", "", "::"]))
         else:
-            return {"kind": kind, "scripts": scripts, "entropy": draw(st.sampled_from([None, 1, 64, 100, 256])) or 256,
-                    "charset": draw(st.sampled_from([None, "ab", "0123456789abcdef", table.H64]))}
+            return {"kind": kind, "scripts": scripts, "entropy": draw(st.one_of(st.sampled_from([1, 48, 64, 100, 192, 256]), st.integers(1, 400))),
+                    "charset": draw(st.sampled_from([None, "ab", "abc", "0123456789", "0123456789abcdef", table.H64, table.DJANGO_SALT, ALPHABETS[6]]))}
         e = draw(st.sampled_from([None, "weak", "strong", "secure", 1, 10, 47.5, 80, 128]))
         ln = draw(st.sampled_from([None, None, 1, 4, 12, 30]))
         c["entropy"], c["length"] = e, ln
